@@ -10,8 +10,9 @@ import (
 func zzNoCrash(bound int, f func()) {
 	zzvt.AllocBudget(bound)
 	panicked := zzvt.Try(f)
-	zzvt.Assert(!panicked, "no-go-panic")
-	zzvt.Assert(zzvt.Allocated() <= bound, "allocation-bounded")
+	// one label: the engine reports an over-budget allocation as a panic at the make(), the
+	// native replay either panics there or measures the allocation afterwards
+	zzvt.Assert(!panicked && zzvt.Allocated() <= bound, "no-go-panic-and-allocation-bounded")
 }
 
 // ZZ_C03_deblob: DeBlobProgramCode on every byte string of length 0..4 returns a program or a
@@ -119,3 +120,32 @@ func ZZ_C03_run_1() { zzRunProgram(1) }
 // ZZ_C03_run_3: the same for three arbitrary code bytes.
 //zz:tier=thorough workers=16 paths=1000000 conccap=300
 func ZZ_C03_run_3() { zzRunProgram(3) }
+
+// ZZ_C03_operands: loading (deblob + pre-decoding) a program whose first instruction is one
+// representative opcode of each operand format with arbitrary operand bytes and every skip
+// length 0..13 (the bytes after the operands are a trap): no Go panic, bounded allocation.
+// Covers the operand windows of the longest formats (two registers and two immediates).
+//zz:workers=16 paths=100000
+func ZZ_C03_operands() {
+	ops := []byte{0, 10, 20, 30, 40, 51, 70, 80, 100, 120, 170, 180, 190}
+	op := ops[zzvt.Range("format", 0, len(ops)-1)]
+	l := zzvt.Range("skip", 0, 13)
+	code := make([]byte, l+2)
+	code[0] = op
+	for i := 1; i <= l && i <= 3; i++ {
+		code[i] = zzvt.U8("operand")
+	}
+	for i := 4; i <= l; i++ {
+		code[i] = byte(i)
+	}
+	code[l+1] = 0 // trap
+	mask := make([]byte, (len(code)+7)/8)
+	mask[0] |= 1
+	mask[(l+1)/8] |= 1 << uint((l+1)%8)
+	blob := append([]byte{0, 0, byte(len(code))}, code...)
+	blob = append(blob, mask...)
+	zzNoCrash(1<<16, func() {
+		_, exit := DeBlobProgramCode(blob)
+		zzvt.Assert(exit == ExitContinue || exit == ExitPanic, "deblob-outcome-defined")
+	})
+}
